@@ -217,6 +217,24 @@ static std::string expected_response(const RspSpec& s, const RspResult& r)
         typed.push_back("Content-Type=text/plain");
         raw.push_back("Content-Type=text/plain");
     }
+    if (s.fileSize >= 0 && *file_exts()[s.fileExt].mime)
+    {
+        // serveFile derives the Content-Type from the file name (replacing one the handler chose)
+        std::string v = std::string("Content-Type=") + file_exts()[s.fileExt].mime;
+        bool had      = false;
+        for (auto* vec : { &typed, &raw })
+            for (auto& x : *vec)
+                if (x.compare(0, 13, "Content-Type=") == 0)
+                {
+                    x   = v;
+                    had = true;
+                }
+        if (!had)
+        {
+            typed.insert(typed.begin(), v);
+            raw.insert(raw.begin(), v);
+        }
+    }
     typed.push_back("Connection=Keep-Alive");
     raw.push_back("Connection=Keep-Alive");
     if (s.stream)
@@ -226,8 +244,8 @@ static std::string expected_response(const RspSpec& s, const RspResult& r)
     }
     else
     {
-        typed.push_back("Content-Length=" + std::to_string(s.bodyLen));
-        raw.push_back("Content-Length=" + std::to_string(s.bodyLen));
+        typed.push_back("Content-Length=" + std::to_string(s.fileSize >= 0 ? (size_t)s.fileSize : s.bodyLen));
+        raw.push_back("Content-Length=" + std::to_string(s.fileSize >= 0 ? (size_t)s.fileSize : s.bodyLen));
     }
     for (size_t k = 0; k < s.cookies.size(); ++k)
     {
@@ -380,6 +398,40 @@ static void caseB(uint64_t i, vr::Ctx& ctx)
         ctx.sample("{\"stream_ops\":" + std::to_string(s.ops.size()) + ",\"wire_bytes\":" + std::to_string(r.wire.size()) + ",\"wire_head\":" + vr::jstr(vr::show(r.wire.substr(0, 120))) + "}");
 }
 
+// file responses (Http::serveFile): sizes x name extensions x handler header / cookie sets, all writes accepted or the
+// head / the file body cut by one short or would-block write
+static const long kFileSizes[] = { 0, 1, 5, 4096, 70000 };
+static uint64_t nF;
+static void caseF(uint64_t i, vr::Ctx& ctx)
+{
+    static const lp::Answer alts[] = { { lp::FULL, 0 }, { lp::ACCEPT, 1 }, { lp::ACCEPT, lp::kHalf }, { lp::BLOCK, 0 } };
+    const uint64_t nE = file_exts().size(), nS = sizeof kFileSizes / sizeof kFileSizes[0];
+    RspSpec s;
+    int planPos = int(i % 3), planAlt = int((i / 3) % 4); // which of the first three write calls deviates, and how
+    if (planAlt)
+    {
+        s.plan.assign(planPos, lp::Answer { lp::FULL, 0 });
+        s.plan.push_back(alts[planAlt]);
+    }
+    uint64_t k = i / 12;
+    s.fileExt  = int(k % nE);
+    s.fileSize = kFileSizes[(k / nE) % nS];
+    k          = k / nE / nS;
+    s.headers  = gHdrSets[k % gHdrSets.size()];
+    s.cookies  = gCookieSets[(k / gHdrSets.size()) % gCookieSets.size()];
+    s.salt     = int(i % 5);
+    s.code     = 200;
+    uint64_t steps = 0;
+    ctx.note("file size=" + std::to_string(s.fileSize) + " ext=" + file_exts()[s.fileExt].ext + " plan-deviation=" + std::to_string(planAlt) + "@" + std::to_string(planPos));
+    RspResult r = run_response(s, &steps);
+    check_parsed(s, r, ctx);
+    ctx.count("evaluations", 1);
+    ctx.count("transitions", steps);
+    ctx.nontrivial(vr::hash_str(r.wire));
+    ctx.state(vr::hash_str(r.wire, 5));
+    ctx.outcome("file round trip");
+}
+
 int main(int argc, char** argv)
 {
     vr::Options opt = vr::parse_args(argc, argv);
@@ -397,13 +449,16 @@ int main(int argc, char** argv)
     nR = gReqs.size();
     nS = (uint64_t)gCodes.size() * gHdrSets.size() * gCookieSets.size();
     nB = (uint64_t)gPrograms.size() * 9;
-    return vr::run(opt, nR + nS + nB, [](uint64_t idx, vr::Ctx& ctx) {
+    nF = 12ull * file_exts().size() * (sizeof kFileSizes / sizeof kFileSizes[0]) * gHdrSets.size() * gCookieSets.size();
+    return vr::run(opt, nR + nS + nB + nF, [](uint64_t idx, vr::Ctx& ctx) {
         ctx.count("executions", 1);
         if (idx < nR)
             caseR(idx, ctx);
         else if (idx < nR + nS)
             caseS(idx - nR, ctx);
-        else
+        else if (idx < nR + nS + nB)
             caseB(idx - nR - nS, ctx);
+        else
+            caseF(idx - nR - nS - nB, ctx);
     });
 }
